@@ -32,6 +32,16 @@ pub fn case(idx: u64, seed: u64, p: &Params, o: &mut CaseOut) {
     let cloned = cl.distances().clone();
     o.check(cloned == first, "distances-differ-on-a-clone", || format!("first {:?} clone {:?}", first.dist, cloned.dist));
     {
+        // a third and a fourth call, and a clone taken from the used object
+        let mut used = fw.clone();
+        for nth in 3..=4 {
+            let later = fw.distances().clone();
+            o.check(later == first, "distances-differ-on-a-later-call", || format!("first {:?} call {nth}: {:?}", first.dist, later.dist));
+        }
+        let via_used = used.distances().clone();
+        o.check(via_used == first, "distances-differ-on-a-clone-of-a-used-object", || format!("first {:?} clone of used {:?}", first.dist, via_used.dist));
+    }
+    {
         let other = AdjacencyListWeighted::<isize>::empty(n);
         let mut x = FloydWarshall::new(&other);
         x.clone_from(&FloydWarshall::new(&d));
